@@ -181,6 +181,11 @@ def run(tier='quick'):
     T13 = chk.rule('T13', '1.x: every statement that selects the crates below a crate excludes the self-parent row '
                           'that marks a root (children, lookup by parent and name)', floor=2)
     self_parent_excluded(prog, cg, eff, chk, T13)
+    T17 = chk.rule('T17', 'sibling names are unique, so that a lookup by parent and name finds exactly one crate: every '
+                          'operation that gives a crate a (parent, name) pair - create root / sub crate, rename, re-parent - '
+                          'runs on a table that declares UNIQUE (title, parent) in every version, or looks the pair up '
+                          'before its first write and throws when it is taken', floor=9)
+    sibling_names_unique(prog, cg, eff, chk, T17)
     T16 = chk.rule('T16', 'the id of a removed crate is never handed out again (ids never collide; a removed crate is never '
                           'returned by a later query): each statement that creates a crate row either leaves the id to an '
                           'AUTOINCREMENT column in every version it runs on, or does not compute it from the ids currently '
@@ -369,6 +374,94 @@ def parent_is_live(prog, cg, eff, chk, T12):
                               'and is in no children() / root_crates() listing' % (
                                   inst, 'no read of the crate table keyed by the argument\'s id' if not probes
                                   else 'no throw depends on that read'))
+
+
+_TITLE_LOOKUPS = {}
+
+
+def _is_title_lookup(prog, cg, eff, name):
+    """Every repository definition called `name` reaches a SELECT on the crate table with `title = ?`."""
+    if name in _TITLE_LOOKUPS:
+        return _TITLE_LOOKUPS[name]
+    defs = [g for g in prog.functions.values() if g.body is not None and g.name == name and prog.in_repo(g.file)
+            and not g.is_pattern]
+    ok = bool(defs)
+    for g in defs:
+        hit = False
+        for h in cg.reachable([g], stop=lambda x: not prog.in_repo(x.file)).values():
+            for st in eff.sites(h[0]) if h[0].body is not None else ():
+                si = st.stored_in
+                if si is not None and si.kind == 'select' and si.where is not None and \
+                        re.search(r'\btitle\s*=\s*\?', si.where.text().lower()) and \
+                        any(t.lower() in ('crate', 'list', 'playlist') for (_, t, _) in (si.tables or [])):
+                    hit = True
+        ok = ok and hit
+    _TITLE_LOOKUPS[name] = ok
+    return ok
+
+
+def sibling_names_unique(prog, cg, eff, chk, rid):
+    cats = rowrules.version_catalogs(prog)
+    ops = ((V1 + 'engine_database_impl::create_root_crate', 'arg'), (V1 + 'engine_crate_impl::create_sub_crate', 'arg'),
+           (V1 + 'engine_crate_impl::set_name', 'arg'), (V1 + 'engine_crate_impl::set_parent', 'stored'),
+           (V2 + 'database_impl::create_root_crate', 'arg'), (V2 + 'crate_impl::create_sub_crate', 'arg'),
+           (V2 + 'crate_impl::create_sub_crate_after', 'arg'), (V2 + 'crate_impl::set_name', 'arg'),
+           (V2 + 'crate_impl::set_parent', 'stored'))
+    for qn, subject in ops:
+        gen2 = qn.startswith(V2)
+        for f, ip, ret in evaluate(prog, cg, eff, qn):
+            chk.analysed(f)
+            tables = sorted({(w.table or '') for w in ip.writes
+                             if (w.table or '').lower() in ('crate', 'list', 'playlist')})
+            inst = '%s: (parent, name) pair unique' % _short(qn)
+            # (a) declared in the DDL of every version of the generation that has the table
+            declared, missing = [], []
+            for en, c in sorted(cats.items()):
+                if rowrules._gen2(en) != gen2:
+                    continue
+                for t in tables or (['Playlist'] if gen2 else ['Crate']):
+                    r = rowrules.lookup_table(c, t)
+                    if r is None or r[0] != 'table':
+                        missing.append(en)
+                        continue
+                    uniq = [set(x.lower() for x in cols) for kind, cols in r[1].constraint_order if kind == 'unique']
+                    if any('title' in u and len(u) == 2 and any('parent' in x for x in u) for u in uniq):
+                        declared.append(en)
+                    else:
+                        missing.append(en)
+            if declared and not missing:
+                chk.ok(rid, inst + ' by UNIQUE (title, parent) in the DDL of %d version(s)' % len(declared), locstr(f.node))
+                continue
+            # (b) looked up before the first write, and a throw depends on the look-up
+            first_write = min([w.seq for w in ip.writes] or [10 ** 9])
+
+            def is_subject(v):
+                sub = list(vf.leaves(v)) + [y for y in _flat(v) if isinstance(y, tuple) and y and y[0] in ('in', 'loc')]
+                if subject == 'arg':
+                    return any(x[0] == 'in' for x in sub)
+                return any(x[0] == 'loc' and len(x) > 2 and (x[1] or '').lower() in ('crate', 'list', 'playlist') and
+                           (x[2] or '').lower() == 'title' for x in sub)
+            probes = [rd for rd in ip.reads if rd.seq < first_write and set(_tables_of(rd)) & {'crate', 'list', 'playlist'}
+                      and any(c.lower() == 'title' and is_subject(v) for c, v in (rd.where or {}).items())]
+            dependent = None
+            for (seq, ty, node, fn, conds) in ip.throws:
+                if seq >= first_write:
+                    continue
+                for c in conds:
+                    for x in _flat(c):
+                        if x[0] in ('call', 'callm') and isinstance(x[1], str) and is_subject(x) and \
+                                _is_title_lookup(prog, cg, eff, x[1].split('::')[-1]):
+                            dependent = (seq, ty, x[1].split('::')[-1])
+            if probes and dependent:
+                chk.ok(rid, inst + ': looked up through %s before the first write, throws %s' % (
+                    dependent[2], dependent[1].split('::')[-1]), probes[0].loc)
+            else:
+                chk.violation(rid, '%s|duplicate sibling name accepted' % _short(qn), locstr(f.node),
+                              '%s: not so - the table declares no UNIQUE (title, parent) in %s and %s: two siblings can '
+                              'carry one name, and root_crate_by_name / sub_crate_by_name then return one of them' % (
+                                  inst, ', '.join(missing[:4]) + (' ...' if len(missing) > 4 else ''),
+                                  'nothing looks the new pair up before the first write' if not probes
+                                  else 'no throw depends on the look-up'))
 
 
 def ids_never_reused(prog, cg, eff, chk, rid):
